@@ -6,10 +6,12 @@ case under /verif/seeded/<seed-name>/ with what was run and what each check said
 import sys, os, json, subprocess, shutil, re, glob
 pid, mutdir, name = sys.argv[1], sys.argv[2].rstrip("/"), sys.argv[3]
 checks = [pid]
+CONFIRM_ONLY = "--confirm-only" in sys.argv      # phase 1 (parallelisable): demo/suite in the scratch worktree only
+DETECT_ONLY = "--detect-only" in sys.argv        # phase 2 (serial): apply to /repo, run the checks, undo
 if "--checks" in sys.argv:
     checks = sys.argv[sys.argv.index("--checks") + 1].split(",")
 wt = os.path.dirname(os.path.dirname(mutdir))
-env = dict(os.environ, GOFLAGS="-mod=mod", GOPROXY="off", GOSUMDB="off")
+env = dict(os.environ, GOFLAGS="-mod=mod", GOPROXY="off", GOSUMDB="off", VERIF_MAX_VIOL="2")
 def sh(cmd, cwd, timeout=1200):
     p = subprocess.run(cmd, shell=True, cwd=cwd, env=env, stdout=subprocess.PIPE, stderr=subprocess.STDOUT, text=True, timeout=timeout)
     return p.returncode, p.stdout
@@ -19,7 +21,10 @@ loc = meta.get("demo_location", "") or meta.get("demo_dir", "")
 m = re.search(r"([A-Za-z0-9_./-]+/)", loc)
 demos = [f for f in glob.glob(os.path.join(mutdir, "*_test.go"))]
 report = {"property": pid, "summary": meta.get("summary"), "needs": meta.get("what_it_needs_to_manifest") or meta.get("needs"), "files_changed": meta.get("files_changed")}
-sh("git checkout -- . ", wt)
+if DETECT_ONLY:
+    cj = json.load(open(os.path.join(mutdir, "confirm.json")))
+    report.update(cj)
+    where = cj["demo_dir"]
 def place(where):
     placed = []
     for d in demos:
@@ -28,31 +33,37 @@ def place(where):
     return placed
 def unplace(pl):
     for p in pl: os.remove(p)
-where = None
-for cand in re.findall(r"[A-Za-z0-9_]+(?:/[A-Za-z0-9_]+)+", loc):
+where = report.get("demo_dir") if DETECT_ONLY else None
+for cand in ([] if DETECT_ONLY else re.findall(r"[A-Za-z0-9_]+(?:/[A-Za-z0-9_]+)+", loc)):
     if os.path.isdir(os.path.join(wt, cand)):
         where = cand; break
 if where is None:
     print("cannot determine demo location from", loc); sys.exit(3)
 report["demo_dir"] = where
-pl = place(where)
-rc0, out0 = sh("go test -vet=off -count=1 ./%s/ 2>&1 | tail -15" % where, wt)
-ok_without = "FAIL" not in out0 and "ok" in out0
-rc, o = sh("git apply %s" % patch, wt)
-if rc != 0:
-    print("patch does not apply", o); sys.exit(3)
-rc1, out1 = sh("go test -vet=off -count=1 ./%s/ 2>&1 | tail -15" % where, wt)
-fails_with = "FAIL" in out1
-unplace(pl)
-rcb, outb = sh("go build ./... 2>&1 | tail -5", wt)
-rcs, outs = sh("go test -vet=off -count=1 ./... 2>&1 | grep -v 'no test files' | tail -30", wt)
-suite_ok = "FAIL" not in outs and rcb == 0
-sh("git checkout -- .", wt)
-report.update({"demo_passes_without_change": ok_without, "demo_fails_with_change": fails_with, "suite_passes_with_change": suite_ok})
-print("confirm:", ok_without, fails_with, suite_ok)
-if not (ok_without and fails_with and suite_ok):
-    print(out0[-800:], out1[-800:], outs[-800:])
-    print("NOT CONFIRMED"); sys.exit(4)
+if not DETECT_ONLY:
+    sh("git checkout -- .", wt)
+    pl = place(where)
+    rc0, out0 = sh("go test -vet=off -count=1 ./%s/ 2>&1 | tail -15" % where, wt)
+    ok_without = "FAIL" not in out0 and "ok" in out0
+    rc, o = sh("git apply %s" % patch, wt)
+    if rc != 0:
+        print("patch does not apply", o); sys.exit(3)
+    rc1, out1 = sh("go test -vet=off -count=1 ./%s/ 2>&1 | tail -15" % where, wt)
+    fails_with = "FAIL" in out1
+    unplace(pl)
+    rcb, outb = sh("go build ./... 2>&1 | tail -5", wt)
+    rcs, outs = sh("go test -vet=off -count=1 ./... 2>&1 | grep -v 'no test files' | tail -30", wt)
+    suite_ok = "FAIL" not in outs and rcb == 0
+    sh("git checkout -- .", wt)
+    report.update({"demo_passes_without_change": ok_without, "demo_fails_with_change": fails_with, "suite_passes_with_change": suite_ok})
+    print("confirm:", ok_without, fails_with, suite_ok)
+    if not (ok_without and fails_with and suite_ok):
+        print(out0[-800:], out1[-800:], outs[-800:])
+        print("NOT CONFIRMED"); sys.exit(4)
+    json.dump({k: report[k] for k in ("demo_dir", "demo_passes_without_change", "demo_fails_with_change", "suite_passes_with_change")},
+              open(os.path.join(mutdir, "confirm.json"), "w"))
+if CONFIRM_ONLY:
+    print("CONFIRMED", name); sys.exit(0)
 # run the checks against /repo with the change applied
 assert sh("git status --porcelain", "/repo")[1].strip() == "", "/repo not clean"
 rc, o = sh("git apply %s" % patch, "/repo")
